@@ -255,6 +255,19 @@ def b2_b3_shapes(run: Run, prog: Program, cy: CyProgram, cfuncs, sites, handoffs
                 continue
             n_ptr += 1
             inst = f"{w.name}->{h.cname}:{cn}"
+            # a typed pointer local bound once to `<T*> PyArray_DATA(x)` stands
+            # for that expression
+            if arg.k == "name":
+                ploc = w.locals.get(arg.a[0])
+                cand = []
+                if ploc is not None and ploc[1] is not None:
+                    cand.append(ploc[1])
+                for st_ in walk(w.body):
+                    if isinstance(st_, X) and st_.k == "assign" and \
+                            any(t_.k == "name" and t_.a[0] == arg.a[0] for t_ in st_.a[0]):
+                        cand.append(st_.a[1])
+                if len(cand) == 1 and cand[0].k == "cast":
+                    arg = cand[0]
             # shape: <T*> cnp.PyArray_DATA(x)
             if not (arg.k == "cast" and arg.a[1].k == "call" and
                     pp(arg.a[1].a[0]).endswith("PyArray_DATA")):
